@@ -171,3 +171,5 @@ def run(rep, tier):
             rep.add(Finding('INTERCEPT-table', 'constructor', nm,
                             f'a user rule or class named `{nm}` can never be instantiated as a template: `{nm}(...)` '
                             f'always builds the built-in expression', 'sourcer/translator.py:_create_parsing_expression'))
+    from .. import controls
+    controls.route_controls(rep)
